@@ -346,7 +346,7 @@ static void bowls(unsigned long long& unit, Stats& st)
 int main(int argc, char** argv)
 {
 	mc::init(argc, argv);
-	if(mc::ctx().replay) { printf("%s\n", mc::ctx().replay_case.c_str()); return 0; }
+	if(mc::ctx().replay) { printf("%s\n(no single-case replay for this part; use ./vcheck --replay <file>, which re-runs the enumeration for this key)\n", mc::ctx().replay_case.c_str()); return 0; }
 	silence();
 	mc::bound("rule", "M2: executions of the minimisers under harness-chosen objective values (state = choice point, transition = objective evaluation); M3: complete products objective x start x tolerance; non-trivial = distinct (result, evaluation count) outcomes and family cases");
 	mc::alphabet("answers", ANS.size() + 1);
